@@ -213,7 +213,21 @@ def run_case(case):
                 ns3 = rr.choice([1, 7, 100, 1000])
                 dt3 = direction * rr.choice([1e-3, 0.1, 0.5, 2.0, 7.3]) / OM          # steps of many epicyclic periods are as exact as tiny ones
                 s3.dt = dt3
-                s3.steps(ns3)
+                # ... also when the step size CHANGES during a run: the shortened last step of integrate(), a user changing (or flipping) dt
+                # between steps - the rotation constants the scheme caches belong to one step size
+                how3 = rr.choice(['steps', 'steps', 'integrate-exact', 'integrate-exact', 'dt-changed', 'dt-flipped'])
+                if how3 == 'steps':
+                    s3.steps(ns3)
+                elif how3 == 'integrate-exact':
+                    for _c in range(rr.choice([1, 1, 3])):
+                        s3.integrate(s3.t + dt3 * (ns3 - 1 + rr.uniform(0.05, 0.95)), exact_finish_time=1)
+                else:
+                    k3 = rr.randint(0, ns3)
+                    s3.steps(k3)
+                    s3.dt = dt3 * (rr.choice([0.37, 0.5, 1.9]) if how3 == 'dt-changed' else -1.0)
+                    s3.steps(ns3 - k3 + 1)
+                counters['sei_runs_with_a_changing_step'] = counters.get('sei_runs_with_a_changing_step', 0) + int(how3 != 'steps')
+                ns3 = max(ns3, int(s3.steps_done))
                 tt = s3.t
                 worst = 0.0
                 for ic, p in zip(ics, s3.particles):
@@ -236,7 +250,7 @@ def run_case(case):
                 counters['max_sei_error_over_bound_x1000'] = max(counters.get('max_sei_error_over_bound_x1000', 0), int(1000 * worst / bound3))
                 if gt(worst, bound3):
                     add('converge:sei-not-exact-for-epicycles', 'OMEGA=%g OMEGAZ=%g dt=%g (%.2f epicyclic periods) %d steps: deviation %.3e of the orbit size, bound %.1e' % (OM, OMZ, dt3, abs(OM * dt3) / 6.283, ns3, worst, bound3))
-                cells.add(json.dumps(['sei', ns3, direction]))
+                cells.add(json.dumps(['sei', min(ns3, 1000), direction, how3]))
                 continue
             if integ == 'traceperi':
                 # TRACE with an eccentric inner planet and steps that are a sizeable fraction of its period: the pericentre switch
